@@ -306,7 +306,13 @@ fn render_module(m: &Module, is_main: bool) -> String {
 }
 
 pub fn marker_of(rel: &str) -> String {
-    format!("ZMARK-{}", rel.replace('/', "-").replace(".sy", ""))
+    // only the main file's marker matters; the others are all alike so that files of the same content
+    // in different folders stay byte-identical
+    if rel == "main.sy" {
+        "ZMARK-main".to_string()
+    } else {
+        "ZMARK-not-the-main-file".to_string()
+    }
 }
 
 fn flat_name(modules: &[Module], m: usize, g: &str) -> String {
